@@ -230,3 +230,8 @@ HARNESSES[-1]['config'] = {'TMCG_MAX_FPOWM_T': 8, 'TMCG_MAX_FPOWM_N': 2}
 H(id='C20_sig_validity', property='C20', src='C20_validity.cc', entry='h_sig_validity', tu=PGP, unwind=8, models=GCRY_MODELS,
   desc='TMCG_OpenPGP_Signature::CheckValidity == specification (expiry, older than key, > 25 h in the future, weak hash)', symbolic='creation, expiration, key creation time (all 32-bit values), current time (any value < 2^40), hash id (all 256)',
   bounds='full 32-bit time fields', assumptions=['time() returns an arbitrary instant'])
+PROTO('C03', 'skc', 'C03_skc.cc', 'h_skc', 'Groth SKC (shuffle of known content), non-interactive: Prove -> Verify accepted, n = 2',
+      'permutation, both messages, randomizer, all prover coins, digests (challenges != 0 mod q)', tu=['GrothVSSHE.cc', 'PedersenCOM.cc', 'mpz_spowm.cc', 'mpz_sprime.cc'],
+      groups=[dict(H_P=11, H_Q=5, H_K=2, VF_BITS=9)], groupsT=[dict(H_P=11, H_Q=5, H_K=2, VF_BITS=9)], timeout=1500)
+HARNESSES[-1]['defines'] = dict(HARNESSES[-1]['defines'], H_DIGEST_UNIT=1, H_MAXDRAWS=24)
+HARNESSES[-1]['assumptions'] = PROTO_ASSUME + ['exceptional set at toy size: challenges x, e are not 0 modulo q (the verifier asserts that e is invertible; probability 2^-l_e at real sizes)']
